@@ -74,6 +74,7 @@ class Stats:
         self.n_nontrivial_samples = 0
         self.excluded = collections.Counter()
         self.last_failing = None
+        self.expensive_failure = False
         self.extra = {}
 
     def record(self, check, case, verdict):
@@ -120,11 +121,18 @@ def _hyp_search(check, tier, seed, n_examples, stats):
               report_multiple_bugs=False, suppress_health_check=list(HealthCheck), print_blob=False)
     @given(check.strategy(tier))
     def test(case):
+        if stats.expensive_failure:
+            return  # see below: no shrinking of a failure whose every replay costs seconds of CPU
+        c0 = time.process_time()
         verdict = check.examine(case)
         stats.record(check, case, verdict)
         if verdict.violations:
             bad = getattr(verdict, 'case_override', None) or case
             stats.last_failing = (bad, verdict.violations)
+            if time.process_time() - c0 > 8:
+                # e.g. a livelock that runs into the step / CPU budget: shrinking it would replay that cost hundreds
+                # of times. The un-shrunk case is reported (the driver's flaky fallback confirms it by re-execution).
+                stats.expensive_failure = True
             raise ViolationFound(bad, verdict.violations)
 
     test()
